@@ -2,6 +2,7 @@ import PkVerif.Lemmas.RefNs
 import PkVerif.Lemmas.RefMerge
 import PkVerif.Lemmas.RefProxy
 import PkVerif.Lemmas.RefOverlay
+import PkVerif.Lemmas.RefFiles
 import PkVerif.Base.Order
 /-!
 # C01 – every storage backend behaves as a content-addressed map
@@ -63,6 +64,10 @@ def interpRefines (content : Bytes → Bytes) (route isSchema : Bytes → Bool) 
   | .proxy o (.cond2 a b) max, h =>
     proxyRefines (interpRefines content route isSchema o (by simp only [Cfg.WF, Bool.and_eq_true] at h; exact h.1))
       (interpRefines content route isSchema (.cond2 a b) (by simp only [Cfg.WF, Bool.and_eq_true] at h ⊢; exact h.2)).toCaches max
+  | .proxy _ (.faulty _ _) _, h => by simp [Cfg.WF] at h
+  | .faulty _ _, h => by simp [Cfg.WF] at h
+  | .proxy _ (.leaf _) _, h => by simp [Cfg.WF] at h
+  | .leaf _, h => by simp [Cfg.WF] at h
   | .overlay l u, h =>
     overlayRefines (interpRefines content route isSchema l (by simp [Cfg.WF] at h; exact h.1))
       (interpRefines content route isSchema u (by simp [Cfg.WF] at h; exact h.2))
@@ -125,6 +130,16 @@ theorem C01_overlay_over_populated_lower {content : Bytes → Bytes} {lower uppe
   intro k
   rw [get_filter_key (fun x => !has ([] : SMap Unit) x) (kasc_union _ hgood.1)]
   simp [has, SMap.get, get_union]
+
+/-- **the file-per-blob store (localdisk)**: with the directory layout `hash/xx/yy/hash-digest.dat`
+and the recursive, cursor-pruned directory walk of files/enumerate.go as its enumeration, it answers
+every history whose received refs are of supported hashes exactly like the reference map – for ANY
+enumerate cursor string and any limit (`Pk.Files.walk_eq`: pruning never drops an entry after the
+cursor, directory order is ref-text order, the shared countdown is `take`) -/
+theorem C01_files (content : Bytes → Bytes) (ops : List Op) (hwk : ∀ op ∈ ops, op.WK content)
+    (hk : ∀ op ∈ ops, Pk.Files.KeyOK Pk.Ref.gtbl op) :
+    (Pk.Files.filesImpl Pk.Ref.gtbl).run (Pk.Files.filesImpl Pk.Ref.gtbl).init ops = RefMap.run [] ops :=
+  Pk.Files.files_run_eq content ops hwk hk
 
 /-- a three-level nesting satisfies the hypotheses (non-vacuity) -/
 example : (Cfg.overlay (.shard2 .mem (.ns .mem)) (.proxy (.cond2 .mem .mem) (.memCache 100) 50)).WF = true := by decide
